@@ -119,12 +119,13 @@ func (o *outcome) logf(format string, args ...any) {
 }
 
 type runner struct {
-	ps     *pkgSpec
-	dir    string
-	gombok string
-	out    *outcome
-	nGen   int
-	nBuild int
+	skipHelpers map[string]bool // on-demand instances whose law call did not compile / crashed
+	ps          *pkgSpec
+	dir         string
+	gombok      string
+	out         *outcome
+	nGen        int
+	nBuild      int
 }
 
 func (r *runner) write(rel, content string) {
@@ -604,6 +605,12 @@ func (r *runner) run() {
 		drop := map[*target]bool{}
 		for _, c := range culprits {
 			drop[c] = true
+			if strings.Contains(c.ID, "/on-demand/") {
+				if r.skipHelpers == nil {
+					r.skipHelpers = map[string]bool{}
+				}
+				r.skipHelpers[c.InstName] = true
+			}
 		}
 		for _, d := range dependents(r.ps.Targets, drop) {
 			if !d.NoLaw {
@@ -687,6 +694,9 @@ func (r *runner) run() {
 			continue
 		}
 		// ---- compile
+		// instances gombok derived on demand (recursive=true) are emitted instances too: the
+		// non-generic ones are law-checked under the expectations of a target that reaches them
+		calls = append(calls, r.onDemandCalls(em, active, uncallable)...)
 		law, lawLines := lawSource(calls)
 		r.write("w/zz_law.go", law)
 		bout, ok := r.build()
@@ -808,6 +818,49 @@ func (r *runner) run() {
 	}
 }
 
+// onDemandCalls makes law calls for the emitted functions that belong to no directive.
+func (r *runner) onDemandCalls(em map[string]*emitted, active []*target, uncallable map[*target]bool) []lawCall {
+	own := map[string]bool{}
+	for _, t := range r.ps.Targets {
+		own[t.InstName] = true
+	}
+	var names []string
+	for n := range em {
+		names = append(names, n)
+	}
+	sort.Strings(names)
+	var out []lawCall
+	for _, n := range names {
+		e := em[n]
+		if own[n] || r.skipHelpers[n] || e.decl == nil || e.decl.Type.TypeParams != nil || (e.decl.Type.Params != nil && len(e.decl.Type.Params.List) > 0) {
+			continue
+		}
+		tc := tcID(-1)
+		for c := Eq; c < nTC; c++ {
+			if strings.HasPrefix(n, tcs[c].Name) && (tc < 0 || len(tcs[c].Name) > len(tcs[tc].Name)) {
+				tc = c
+			}
+		}
+		if tc < 0 {
+			continue
+		}
+		var user *target
+		for _, t := range active {
+			if !uncallable[t] && t.TC == tc && reaches(em, t.InstName, n) {
+				user = t
+				break
+			}
+		}
+		if user == nil {
+			continue
+		}
+		pt := &target{ID: fmt.Sprintf("%s/on-demand/%s@%s", tcs[tc].Name, strings.TrimPrefix(n, tcs[tc].Name), r.ps.Name), TC: tc, Type: strings.TrimPrefix(n, tcs[tc].Name), InstName: n, Opt: user.Opt}
+		out = append(out, lawCall{pt, pt.ID, n + "()"})
+		r.out.count("instances-derived-on-demand/"+tcs[tc].Name, 1)
+	}
+	return out
+}
+
 // buildsAlone: gombok + build of a subset (used only to isolate unattributed failures).
 func (r *runner) buildsAlone(sub []*target) bool {
 	ok, _ := r.generate(sub)
@@ -906,6 +959,10 @@ func (r *runner) inputOf(t *target) string {
 		if td.Name == base {
 			b.WriteString(td.Src + "\n")
 		}
+	}
+	if strings.Contains(t.ID, "/on-demand/") {
+		b.WriteString("(instance derived on demand for a recursive=true directive of this package)\n")
+		return b.String()
 	}
 	b.WriteString(t.directive())
 	return b.String()
